@@ -348,3 +348,27 @@ package inmem
 //@       events[i] == collection.stream[ite(first < last || i < collection.capacity - first, first + i, i - (collection.capacity - first))]
 //   (the composition window-copy + lap-index + ring invariant ==> events[i] == log[acq(pos)+i] is not discharged by the
 //   installed solvers within the time limit; it is the one cited step of this function)
+//@
+// C14: a selector-filtered kind watch is an exact change log of the filtered set. `selected(r)` is
+// what the watch's selector closure (`matches`: ID query AND label queries, pkg/resource) answers for
+// a resource. The event filter passes Created/Destroyed events of selected resources, rewrites an
+// update into the selection as Created, one out of it as Destroyed (both without Old), passes updates
+// inside it unchanged and drops updates outside it.
+//@ fn selected(r resource.Resource) bool
+//@ func (*ResourceCollection).WatchAll$1
+//@   props C14
+//@   pure
+//@   requires res != nil && mdOf(res) != nil
+//@   ensures [def-selected] result == selected(res)
+//@
+//@ func (*ResourceCollection).WatchAll$4$2
+//@   props C14
+//@   may_panic
+//@   requires [event] event != nil && event.Resource != nil && mdOf(event.Resource) != nil && (event.Type == 1 ==> event.Old != nil && mdOf(event.Old) != nil)
+//@   modifies event.Type, event.Old
+//@   ensures [created-destroyed-pass-iff-selected] old(event.Type) == 0 || old(event.Type) == 2 ==> result == selected(old(event.Resource)) && event.Type == old(event.Type)
+//@   ensures [updated-into-selection-becomes-created] old(event.Type) == 1 && !selected(old(event.Old)) && selected(old(event.Resource)) ==> result && event.Type == 0 && event.Old == nil
+//@   ensures [updated-out-of-selection-becomes-destroyed] old(event.Type) == 1 && selected(old(event.Old)) && !selected(old(event.Resource)) ==> result && event.Type == 2 && event.Old == nil
+//@   ensures [updated-inside-selection-passes] old(event.Type) == 1 && selected(old(event.Old)) && selected(old(event.Resource)) ==> result && event.Type == 1 && event.Old == old(event.Old)
+//@   ensures [updated-outside-selection-dropped] old(event.Type) == 1 && !selected(old(event.Old)) && !selected(old(event.Resource)) ==> !result
+//@   ensures [resource-kept] event.Resource == old(event.Resource)
